@@ -28,6 +28,9 @@ pub const LEAVES: &[(&str, &str)] = &[
     ("tmp-assign-func", "fb() { :; }; x=tmp fb"),
     ("eval", "eval 'echo e >/dev/null'"),
     ("source", ". ./inc.sh"),
+    ("source-empty-file", ". ./empty.sh"),
+    ("source-comment-only", ". ./cmt.sh a"),
+    ("source-dev-null", ". /dev/null"),
     ("fd-dup", "echo a 3>&1 >/dev/null 2>&3"),
     ("rw-fd", "echo a 3<>rw.txt >&3"),
     ("local", "fc() { local l=1; }; fc"),
@@ -130,6 +133,8 @@ pub fn worker() -> Handler {
         let n = v["n"].as_u64().unwrap_or(2) as usize;
         let dir = ip.fresh_dir();
         std::fs::write(dir.join("inc.sh"), "iv=1\n").unwrap();
+        std::fs::write(dir.join("empty.sh"), "").unwrap();
+        std::fs::write(dir.join("cmt.sh"), "# nothing\n\n").unwrap();
         std::fs::write(dir.join("ret.sh"), "for k in 1 2; do return 4; done\n").unwrap();
         if let Some(q) = v["seqfile"].as_str() {
             std::fs::write(dir.join("seq.sh"), q).unwrap();
@@ -166,16 +171,26 @@ pub fn worker() -> Handler {
             settle().await;
             let (out1, mut off) = read_from((0, 0));
             // descriptors of unwaited process substitutions close a little later, more so on a busy machine:
-            // a count is taken once it has been the same for a millisecond
+            // for scripts with asynchronous parts a count is taken once it has been the same for 15 ms
+            let asyncish = script.contains("<(") || script.contains(">(") || script.contains('&') || script.contains("coproc");
             let stable_fds = || async {
                 let mut n = count_fds();
-                for _ in 0..1000 {
-                    tokio::time::sleep(std::time::Duration::from_millis(1)).await;
+                if !asyncish {
+                    return n;
+                }
+                let mut same = 0;
+                for _ in 0..400 {
+                    tokio::time::sleep(std::time::Duration::from_millis(5)).await;
                     let m = count_fds();
                     if m == n {
-                        break;
+                        same += 1;
+                        if same >= 3 {
+                            break;
+                        }
+                    } else {
+                        same = 0;
+                        n = m;
                     }
-                    n = m;
                 }
                 n
             };
@@ -201,6 +216,31 @@ pub fn worker() -> Handler {
                 tokio::time::sleep(std::time::Duration::from_millis(10)).await;
                 fdn = count_fds();
             }
+            // fewer descriptors than after the first iteration: the first count caught a descriptor of an
+            // asynchronous part that had not been closed yet. The lower count becomes the base and the
+            // sequence is repeated another N times against it.
+            let mut fd1 = fd1;
+            if fdn < fd1 {
+                fd1 = fdn;
+                for _ in 0..n {
+                    let r = sh.run_string(script.clone(), &src, &params).await;
+                    last_st = r.map(|r| u8::from(r.exit_code) as i64).unwrap_or(-1);
+                    let _ = sh.run_string(PROBE.to_string(), &src, &params).await;
+                    let (o, no) = read_from(off);
+                    off = no;
+                    last_out = o;
+                }
+                settle().await;
+                fdn = stable_fds().await;
+                for _ in 0..100 {
+                    if fdn == fd1 {
+                        break;
+                    }
+                    tokio::time::sleep(std::time::Duration::from_millis(10)).await;
+                    fdn = count_fds();
+                }
+            }
+            let _ = off;
             let (scn, csn) = depths(&sh);
             let mut z = zombies();
             if z > 0 {
